@@ -96,6 +96,16 @@ def setitem_obligations(ctx: Ctx, pid: str) -> None:
     n = 0
     for l in I.run_function(CORE, "TagAttrDict.__setitem__", mk, Config()):
         v = l.run.__dict__["v"]
+        if l.kind == "return" and not (v.kinds & {"NONE", "FALSE"}):
+            # a value that is not None/False is stored, whatever its content (an empty string is a value too)
+            st_ = [e for e in l.effects if (e.kind == "basecall" and str(e.key).endswith("__setitem__"))
+                   or (e.kind == "store_item" and e.target is not None and getattr(e.target, "name", "") == "self")]
+            cond_ = [str(lbl) for _, lbl in l.atoms][-3:]
+            ctx.check(bool(st_), f"{pid}.setitem", f"item assignment stores a value of kind {_ks(v.kinds)}", where,
+                      f"value kind {_ks(v.kinds)}: no store on path {cond_}",
+                      f"`attrs[name] = value` returns without storing a value of kind {_ks(v.kinds)} (path {cond_}): the attribute is missing from the "
+                      f"rendered tag although the constructor / update() keep it (copy() re-inserts every item through __setitem__, so tagify()/render() lose it too)",
+                      witness="t = div(class_=''); str(t)")
         for e in l.effects:
             if e.kind == "basecall" and str(e.key).endswith("__setitem__") or (e.kind == "store_item" and e.target is not None and getattr(e.target, "name", "") == "self"):
                 n += 1
